@@ -561,7 +561,8 @@ class FlatLinearOperator(ScipyLinearOperator):
                 npc_vec.legs[0] = npc_vec.legs[0].to_LegCharge()
             return npc_vec[self._mask].to_ndarray()
         else:
-            npc_vec.itranspose([self.vec_label, 'charge'])
+            ch_axis = npc_vec.get_leg_index('charge')  # (the other leg might have got a label from `npc_matvec`)
+            npc_vec.itranspose([1 - ch_axis, ch_axis])
             res = np.zeros([self.leg.ind_len], npc_vec.dtype)
             leg = self.leg
             for qinds, data in zip(npc_vec._qdata, npc_vec._data):
